@@ -43,6 +43,9 @@ CHECKS = {
  "C08": ("model_checking", "complete enumeration of line-token sequences x file-shape dimensions, structural byte-level oracle with the split known by construction",
          "every sequence (<=3 for python/c, <=2 for 6 more styles; <=5/<=3 over 27 styles in thorough) over 9 line tokens x {none, BOM, shebang, BOM+shebang} x {LF, CRLF, CR} x final newline x {replace, --no-replace}: the new file must be core(before) + header block + core(after) with BOM/shebang first, one line-ending convention, and nothing but comment lines in the header block",
          "mixed line endings inside one file unspecified; in single-line styles the replaced block is the maximal adjacent comment run", "4/C08"),
+ "C09": ("model_checking", "explicit-state BFS over command histories with state de-duplication, running-model invariant on every transition",
+         "breadth-first search over all sequences (<=3 quick, <=4 thorough) of a 12-command annotate menu from 6 initial files x 4 styles, every transition executed by the real command on a scratch tree, states hashed on (tree bytes, model); after each transition the read-back must equal old U requested (semantically for --merge-copyrights)",
+         "reuse is stateless between invocations (soundness of state merging); nocontrib templates may drop contributors of the replaced block", "4/C09"),
 }
 PENDING_REASON = "check not built yet in this session (design in DESIGN.md section 4); not claimed until its machinery exists"
 
